@@ -166,8 +166,14 @@ func registerApps() {
 	regOnce.Do(func() {
 		regApps, regIDs = map[string]channel.App{}, map[string]simchannel.AppID{}
 		for _, name := range []string{"APP1", "APP2", "APPX"} {
-			rng := rand.New(rand.NewSource(int64(len(name)) + int64(name[3])*7919))
-			id := simchannel.NewRandomAppID(rng)
+			// fixed bytes: ecdsa.GenerateKey is not a deterministic function of its
+			// reader, and parent and child processes must agree on the app ids
+			h1, h2 := sha256.Sum256([]byte(name+"/x")), sha256.Sum256([]byte(name+"/y"))
+			addr := &simwallet.Address{}
+			if err := addr.UnmarshalBinary(append(h1[:], h2[:]...)); err != nil {
+				panic(err)
+			}
+			id := simchannel.AppID{Address: addr}
 			regIDs[name] = id
 			if name != "APPX" {
 				app := channel.NewMockApp(id)
